@@ -266,9 +266,9 @@ func init() {
 	c06.Assumptions = append(c06.Assumptions, "query side: the meaning of a search while streams are pending = decided streams by their stored bit, pending streams by the tag's definition (InlineTagFilters); evaluated with the C03 condition evaluator")
 	registry["C06"] = c06
 
-	cnv := HarnessSpec{Pkg: mg, Func: "ZZ_C16_Converters", Quick: &Tier{Params: map[string]int{"realjobs": 1, "scenarios": 8}, Samples: 8},
-		Thorough: &Tier{Params: map[string]int{"realjobs": 1, "scenarios": 8, "payloadmax": 6, "thresholdmax": 12}, Samples: 16},
-		Bounds: "eight job-level schedules with one converter: attached after imports, then an import that extends a converted stream and adds a matching one; attached before the first import; an import extending a stream while the converter job about to convert it is in flight; attached to a second tag while its job for the first is in flight; detached, then an import with a matching stream; converter restarted; an out-of-order capture rebuilding a converted stream; output requested through a view older than an import. Payload sizes and the data tag's threshold symbolic"}
+	cnv := HarnessSpec{Pkg: mg, Func: "ZZ_C16_Converters", Quick: &Tier{Params: map[string]int{"realjobs": 1, "scenarios": 9}, Samples: 8},
+		Thorough: &Tier{Params: map[string]int{"realjobs": 1, "scenarios": 9, "payloadmax": 6, "thresholdmax": 12}, Samples: 16},
+		Bounds: "nine job-level schedules with one converter: attached after imports, then an import that extends a converted stream and adds a matching one; attached before the first import; an import extending a stream while the converter job about to convert it is in flight; attached to a second tag while its job for the first is in flight; detached, then an import with a matching stream; converter restarted; an out-of-order capture rebuilding a converted stream; output requested through a view older than an import; the definition of a tag with the converter attached edited. Payload sizes and the data tag's threshold symbolic"}
 	registry["C16"] = CheckSpec{Property: "C16", Harnesses: []HarnessSpec{cnv},
 		Assumptions: append([]string{"the converter process (os/exec, pipes, JSON line protocol) is replaced in the engine by a scripted converter computing the same function of the stream's payload (one client chunk: 'A' + client bytes mod 26) as the python executable the native replay really starts through the real process layer", "the converter is registered as addConverter does (NewCache + the two maps) without the executable/regexp checks"}, svcAssume...),
 		Outside: []string{"more than one converter", "converter processes that fail, time out or answer malformed lines", "converter restarts racing with a running job", "data filters with a converter selector (C04 part B covers the filter over a converter-style source)", "interleavings below job granularity"}}
